@@ -362,6 +362,18 @@ class SNum(SV):
     def __round__(self, n=None):
         raise Unsupported('round() of a symbolic number')
 
+    def __floor__(self):
+        return self if self.is_int else SNum(z3.ToInt(self.term), True)
+
+    def __ceil__(self):
+        return self if self.is_int else SNum(-z3.ToInt(-self.term), True)
+
+    def __trunc__(self):
+        if self.is_int:
+            return self
+        fl = z3.ToInt(self.term)
+        return SNum(z3.If(self.term >= 0, fl, -z3.ToInt(-self.term)), True)
+
     def total_seconds(self):      # lets a real stand for a timedelta where only this is used
         raise AttributeError('total_seconds')
 
